@@ -949,9 +949,9 @@ def _(p, A):
 # =========================== becke / hirshfeld ===============================================
 def _becke_args(p, A, alias_points=False):
     R = _rng(p)
-    m = 2 + int(p["seed"]) % 2
-    atc = A.arr("atcoords", np.array([[0.0, 0.0, -0.7], [0.0, 0.0, 0.7], [1.1, 0.3, 0.0]])[:m])
-    atn = A.arr("atnums", [1, 8, 6][:m], dtype=int)
+    m = 2 + int(p["seed"]) % 4  # 2..5 atoms: from 4 atoms on the whole-grid call works in several chunks
+    atc = A.arr("atcoords", np.array([[0.0, 0.0, -0.7], [0.0, 0.0, 0.7], [1.1, 0.3, 0.0], [-1.2, 0.9, 0.4], [0.2, -1.5, 1.0]])[:m])
+    atn = A.arr("atnums", [1, 8, 6, 7, 1][:m], dtype=int)
     if alias_points:
         pts = A.same("points", atc)  # the weights are evaluated at the nuclei themselves
         ind = A.arr("indices", np.arange(m + 1), dtype=int)
